@@ -374,6 +374,13 @@ func genC07(r *hx.Rng, id string) *case07 {
 		c.Nodes = append(c.Nodes, n)
 	}
 	c.Req = genReq(r, c.Nodes[0].Cap, free0)
+	if r.Chance(12) { // unlimited and finite nodes mixed (the total must saturate, in any iteration order)
+		c.Req = reqJ{CR: hx.Pick(r, int64(0), nano/2)}
+		for i := range c.Nodes {
+			v := hx.Pick(r, math.MaxInt, math.MaxInt, 1, 5, 1000, math.MaxInt-1, math.MaxInt/2+1)
+			c.Nodes[i].Extra = []*int{&v}
+		}
+	}
 	if r.Chance(4) {
 		c.Ks = []int{hx.Pick(r, 0, -1, 1)}
 	}
